@@ -193,6 +193,7 @@ pub struct CodegenContext {
 
     next_macro_scope_id: usize,
     macro_invocation_depth: usize,
+    dummy_segment_depth: usize,
     /// The files that are currently being emitted (the main file and the chain of imports leading to the current file)
     import_stack: Vec<PathBuf>,
 
@@ -244,6 +245,7 @@ impl CodegenContext {
             current_scope_nx: SymbolIndex::new(0),
             next_macro_scope_id: 0,
             macro_invocation_depth: 0,
+            dummy_segment_depth: 0,
             import_stack,
             test_elements: vec![],
             source_map: SourceMap::default(),
@@ -1283,18 +1285,21 @@ impl CodegenContext {
         &mut self,
         f: F,
     ) -> CoreResult<()> {
-        // Already emitting into the dummy segment (e.g. an untaken branch inside an untaken branch)? Then keep using
-        // it, since removing it when the inner call is done would pull it out from under the outer one.
-        if self.current_segment.as_ref().map(|s| s.as_str()) == Some("$dummy") {
-            return f(self);
-        }
-
+        // Only the outermost user creates and removes the dummy segment. An untaken branch inside an untaken branch keeps
+        // using it, also when a '.segment' block in between has switched to another segment for a while: removing it when
+        // the inner call is done would pull it out from under the outer one.
         let prev_segment = self.current_segment.clone();
-        self.segments
-            .insert("$dummy".into(), Segment::new(SegmentOptions::default()));
+        if self.dummy_segment_depth == 0 {
+            self.segments
+                .insert("$dummy".into(), Segment::new(SegmentOptions::default()));
+        }
+        self.dummy_segment_depth += 1;
         self.current_segment = Some(Identifier::new("$dummy"));
         let result = f(self);
-        self.segments.remove(&Identifier::new("$dummy"));
+        self.dummy_segment_depth -= 1;
+        if self.dummy_segment_depth == 0 {
+            self.segments.remove(&Identifier::new("$dummy"));
+        }
         self.current_segment = prev_segment;
         result
     }
